@@ -100,30 +100,32 @@ Definition model_iter_texts (cases : list (bool * (list string * list (list stri
 Definition show_dres (r : dresult) : string :=
   match r with DName n => show_str n | DNull => "NULL" | DFault => "FAULT" end.
 
-Fixpoint model_walk (op : operand) (name : string) (members fwd : bool)
+Fixpoint model_walk (gone : dresult) (op : operand) (name : string) (members fwd : bool)
          (s : mstate) (cur : string) (between : list (list sym)) : string :=
   match between with
   | [] => ""
   | b :: r =>
       let s' := fold_left m_sym b s in
-      let o := if members then vm_dnextm (m_dir s') op name fwd cur else vm_dnext (m_dir s') op fwd cur in
+      let o := if members then vm_dnextm_gen gone (m_dir s') op name fwd cur else vm_dnext (m_dir s') op fwd cur in
       show_dres o +++ ";" +++
       match o with
-      | DName n => model_walk op name members fwd s' n r
+      | DName n => model_walk gone op name members fwd s' n r
       | _ => ""
       end
   end.
 
-Definition model_walk_text (op : operand) (name : string) (members fwd : bool)
+Definition model_walk_text (gone : dresult) (op : operand) (name : string) (members fwd : bool)
            (prefix : list sym) (between : list (list sym)) : string :=
   let s := fold_left m_sym prefix m_init in
   let o := if members then vm_discm (m_dir s) op name fwd else vm_disc (m_dir s) op fwd in
   show_dres o +++ ";" +++
   match o with
-  | DName n => model_walk op name members fwd s n between
+  | DName n => model_walk gone op name members fwd s n between
   | _ => ""
   end.
 
-Definition model_walk_texts (cases : list walk_case) : string :=
+(* [repaired]: evaluate vm_dnextm_fixed instead of vm_dnextm *)
+Definition model_walk_texts (repaired : bool) (cases : list walk_case) : string :=
+  let gone := if repaired then DNull else DFault in
   sconcat (map (fun c => let '(i, (op, (name, (members, (fwd, (prefix, between)))))) := c in
-                         model_walk_text op name members fwd prefix between +++ "@") cases).
+                         model_walk_text gone op name members fwd prefix between +++ "@") cases).
